@@ -537,4 +537,25 @@ def stepRaw (s : SeqState) (op : Op) : Raw :=
 call left behind. -/
 def run (s : SeqState) (ops : List Op) : SeqState := ops.foldl (fun s op => (stepRaw s op).st) s
 
+/-- An oracle answer: the fall times `(fs, fe)` of the detuned-delay pulse
+`ConstantPulse(dur, 0, detOff, ·)` on channel `n` (what `Pulse.fall_time` returns for it, in
+standard and in EOM mode).  The harness supplies it when the model asks (`need`); in the
+theorems it may arrive at any time and with any values. -/
+def SeqState.injectOracle (s : SeqState) (n : ChName) (detOff : Rat) (dur fs fe : Nat) : SeqState :=
+  { s with chans := s.chans.map fun c =>
+      if c.name == n then { c with ddOracle := ((detOff, dur), (fs, fe)) :: c.ddOracle } else c }
+
+/-- Events of a history: API calls and oracle answers. -/
+inductive Ev
+  | call (op : Op)
+  | oracle (n : ChName) (detOff : Rat) (dur fs fe : Nat)
+  deriving Repr, Inhabited
+
+def stepEv (s : SeqState) : Ev → SeqState
+  | .call op => (stepRaw s op).st
+  | .oracle n detOff dur fs fe => s.injectOracle n detOff dur fs fe
+
+/-- Histories with oracle answers interleaved. -/
+def runEv (s : SeqState) (evs : List Ev) : SeqState := evs.foldl stepEv s
+
 end Pulser
